@@ -19,6 +19,7 @@ import json
 import os
 import pathlib
 import shutil
+import sys
 import tempfile
 
 import common
@@ -1014,7 +1015,7 @@ def gen_const_e(rng):
         _GEN['components'], _GEN['abs_prefixes'] = COMPONENTS, None
 
 
-def gen_ecase(rng, i, root):
+def gen_ecase(rng, i, root, forced=None):
     home, acthome, third = os.path.join(root, 'home'), os.path.join(root, 'acthome'), os.path.join(root, 'ABS')
     kind = rng.weighted([('create', 50), ('read', 20), ('both', 30)])
     ph, attr, after = rng.choice(PHASES)
@@ -1022,6 +1023,9 @@ def gen_ecase(rng, i, root):
     src = None
     try:
         while True:
+            if forced:
+                kind, defs, arg = 'create', forced['defs'], forced['arg']
+                break
             defs = gen_defs(rng)
             if kind == 'both':
                 src, arg = gen_pair(rng, defs)
@@ -1038,6 +1042,8 @@ def gen_ecase(rng, i, root):
         _GEN['components'], _GEN['abs_prefixes'] = COMPONENTS, None
     cd = rng.weighted([(None, 45), ('act-sub', 20), ('tmp', 8), ('tmp-sub', 10), ('symbol', 17)])
     cd_early = rng.chance(0.5)  # the cd stands in [setup]; the instruction may stand in a later phase (the directory persists)
+    if forced:
+        cd, cd_early = forced['cd'], True
     home_file = None
     marker = 'MARK%d' % i
     src_label, dst_first = None, False
@@ -1052,12 +1058,12 @@ def gen_ecase(rng, i, root):
             'src': render_arg(src), 'dst': render_arg(arg)}
     elif kind == 'create':
         instr = rng.choice(['file', 'dir', 'copy'])
-        if cd and rng.chance(0.4):
+        if cd and not forced and rng.chance(0.4):
             # the forms WITHOUT a relativity option: relative to the directory current when the instruction runs
             c = gen_const_e(rng)
             arg = (('none',), ('plain', [('c', c)]) if c else None)
         label = instr + ':destination'
-        if instr == 'copy' and rng.chance(0.35):
+        if instr == 'copy' and not forced and rng.chance(0.35):
             # `copy SOURCE` without DESTINATION: "SOURCE is copied to the current directory" = destination <basename of SOURCE>
             # with the default relativity; the source is a uniquely named file in the home directory
             home_file = marker
@@ -1091,7 +1097,8 @@ def gen_ecase(rng, i, root):
         defs = defs + [('P99', 'path', (('opt', r), ('plain', [('c', 'w')])))]
         k = lines.index('[act]')
         lines = lines[:k] + ['def ' + render_def(defs[-1])] + lines[k:]
-        cd_lines = ['dir @[P99]@', rng.choice(['cd @[P99]@', 'cd -rel P99 .']), "file src.txt = 'CWD'"]
+        # the directory is made without a symbol reference, so that the `cd` is the first path with one
+        cd_lines = ['dir -%s w' % OPT_NAME[r], rng.choice(['cd @[P99]@', 'cd -rel P99 .']), "file src.txt = 'CWD'"]
         cwd_rel = ['act' if r == 'RAct' else 'tmp', 'w']
     body = [line]
     if cd_early or ph == 'setup':
@@ -1116,6 +1123,42 @@ def run_ecases(ctx, res, im, scratch):
     mp = impl.main_program(sbx)
     keep_in_scratch = set(os.listdir(scratch))
     cases = []
+
+    def finish(ec, root, home, acthome, out, err, exc, before, after, scan_dir, sbx_dir):
+        sds = out.strip() or None
+        first = ([l for l in err.splitlines() if l in VERDICTS or l.isupper()] or err.splitlines() or [''])[0]
+        verdict = VERDICTS.get(first, 'EOther') if exc is None else 'EOther'
+        assert sds is None or (os.path.isdir(sds) and os.path.dirname(sds) == sbx_dir), out
+        found = []
+        for dp, dn, fn in os.walk(scan_dir):  # the case's directory, the sandboxes, and wherever a ".." may have led
+            found += [os.path.join(dp, x) for x in dn + fn if x == ec['marker']]
+        found = sorted(x for x in found if not (ec.get('home_file') and x == os.path.join(home, ec['home_file'])))
+        read = None
+        if ec['kind'] in ('read', 'both') and found:
+            content = open(found[0]).read() if os.path.isfile(found[0]) else None
+            read = TAGS.get(content, 99)
+        sds_m = sds or '/NO-SANDBOX'
+        cwd = os.path.join(sds_m, *(ec.get('cwd_rel') or (['act', 'w'] if ec['cd'] else ['act'])))
+        files = [(os.path.join(home, 'src.txt'), 1), (os.path.join(acthome, 'src.txt'), 2), (os.path.join(sds_m, 'act', 'src.txt'), 3),
+                 (os.path.join(sds_m, 'tmp', 'src.txt'), 4)]
+        if ec['cd'] and ec['cd'] != 'tmp':
+            files.append((os.path.join(cwd, 'src.txt'), 5))
+        if ec['after']:
+            files.append((os.path.join(sds_m, 'result', 'exit-code'), 6))
+        ec.update(verdict=verdict, created=found if ec['kind'] in ('create', 'both') else [], read=read, home_changed=before != after,
+                  sds=sds_m, cwd=cwd, files=files, home=home, acthome=acthome,
+                  stderr=err[:600].replace(root, '<ROOT>'), exception=repr(exc) if exc else None)
+        cases.append(ec)
+        res.count('ecase %s in %s' % (ec['label'], ec['phase']))
+        res.count('ecase verdict ' + verdict)
+        res.count('ecase cd before the instruction: %s' % (ec['cd'] or 'none'))
+        if ec.get('home_file'):
+            res.count('ecase copy SOURCE without DESTINATION')
+        if ec.get('fresh'):
+            res.count('ecase run in a fresh process (command line)')
+        if chain_depth(ec['defs'], ec['arg']) >= 1 or ec['arg'][0][0] in ('opt', 'sym'):
+            res.nontrivial.add(('e', ec['text']))
+
     for i in range(len(E_CORPUS) + n):
         root = os.path.join(scratch, 'e%d' % i)
         home, acthome, third = os.path.join(root, 'home'), os.path.join(root, 'acthome'), os.path.join(root, 'ABS')
@@ -1154,37 +1197,7 @@ def run_ecases(ctx, res, im, scratch):
         before = snapshot(home, acthome)
         pr = impl.run_main(mp, ['--keep', 'c.case'], home, root)
         after = snapshot(home, acthome)
-        sds = pr.out.strip() or None
-        first = (pr.err.splitlines() or [''])[0]
-        verdict = VERDICTS.get(first, 'EOther') if pr.exception is None else 'EOther'
-        assert sds is None or (os.path.isdir(sds) and os.path.dirname(sds) == sbx), pr.out
-        found = []
-        for dp, dn, fn in os.walk(scratch):  # the case's directory, the sandboxes, and wherever a ".." may have led
-            found += [os.path.join(dp, x) for x in dn + fn if x == ec['marker']]
-        found = sorted(x for x in found if not (ec.get('home_file') and x == os.path.join(home, ec['home_file'])))
-        read = None
-        if ec['kind'] in ('read', 'both') and found:
-            content = open(found[0]).read() if os.path.isfile(found[0]) else None
-            read = TAGS.get(content, 99)
-        sds_m = sds or '/NO-SANDBOX'
-        cwd = os.path.join(sds_m, *(ec.get('cwd_rel') or (['act', 'w'] if ec['cd'] else ['act'])))
-        files = [(os.path.join(home, 'src.txt'), 1), (os.path.join(acthome, 'src.txt'), 2), (os.path.join(sds_m, 'act', 'src.txt'), 3),
-                 (os.path.join(sds_m, 'tmp', 'src.txt'), 4)]
-        if ec['cd'] and ec['cd'] != 'tmp':
-            files.append((os.path.join(cwd, 'src.txt'), 5))
-        if ec['after']:
-            files.append((os.path.join(sds_m, 'result', 'exit-code'), 6))
-        ec.update(verdict=verdict, created=found if ec['kind'] in ('create', 'both') else [], read=read, home_changed=before != after,
-                  sds=sds_m, cwd=cwd, files=files, home=home, acthome=acthome,
-                  stderr=pr.err[:600].replace(root, '<ROOT>'), exception=repr(pr.exception) if pr.exception else None)
-        cases.append(ec)
-        res.count('ecase %s in %s' % (ec['label'], ec['phase']))
-        res.count('ecase verdict ' + verdict)
-        res.count('ecase cd before the instruction: %s' % (ec['cd'] or 'none'))
-        if ec.get('home_file'):
-            res.count('ecase copy SOURCE without DESTINATION')
-        if chain_depth(ec['defs'], ec['arg']) >= 1 or ec['arg'][0][0] in ('opt', 'sym'):
-            res.nontrivial.add(('e', ec['text']))
+        finish(ec, root, home, acthome, pr.out, pr.err, pr.exception, before, after, scratch, sbx)
         for x in os.listdir(sbx):  # the sandbox, and anything a ".." put next to it
             px = os.path.join(sbx, x)
             shutil.rmtree(px, ignore_errors=True) if os.path.isdir(px) else os.remove(px)
@@ -1193,6 +1206,77 @@ def run_ecases(ctx, res, im, scratch):
             if x not in keep_in_scratch:
                 px = os.path.join(scratch, x)
                 shutil.rmtree(px, ignore_errors=True) if os.path.isdir(px) else os.remove(px)
+
+    # ---- the same cases the way the tool is really run: ONE FRESH PROCESS per case (command line).  State that lives in the
+    # process (module-level caches, shared objects) is then seeded by the case's own first instructions, not by the
+    # thousands of cases the harness ran before in this process.
+    import subprocess
+    from concurrent.futures import ThreadPoolExecutor
+    nf = size_of(ctx, 24, 160)
+    batch = []
+    for i in range(nf):
+        root = os.path.join(scratch, 'f%d' % i)
+        home, acthome, third = os.path.join(root, 'home'), os.path.join(root, 'acthome'), os.path.join(root, 'ABS')
+        for d in (home, acthome, third, os.path.join(root, 'sbx')):
+            os.makedirs(d)
+        for d, c in ((home, 'HOME'), (acthome, 'ACTHOME')):
+            with open(os.path.join(d, 'src.txt'), 'w') as f:
+                f.write(c)
+        ec = None
+        for _attempt in range(50):
+            if rng.chance(0.65):
+                # a `cd` through a path symbol in [setup] is the first path with a symbol reference that the process parses;
+                # the destination goes through a symbol of any of the 6 relativities, of -rel-here, or of an absolute literal
+                k = rng.below(8)
+                first = (('opt', REL[k]), ('plain', [('c', 'res')])) if k < 6 else (
+                    (('here',), ('plain', [('c', 'res')])) if k == 6 else (('none',), ('plain', [('c', third + '/res')])))
+                ds = [('P1', 'path', first)]
+                cur = 'P1'
+                _GEN['components'], _GEN['abs_prefixes'] = ['a', 'b', 'sub', '.', 'c'], 'none'
+                try:
+                    for t in range(rng.randint(0, 2)):
+                        ds.append(('P%d' % (t + 2), 'path', ref_form(rng, cur)))
+                        cur = ds[-1][0]
+                    cand = gen_ecase(rng, 100000 + i, root, forced={'defs': ds, 'arg': ref_form(rng, cur), 'cd': 'symbol'})
+                finally:
+                    _GEN['components'], _GEN['abs_prefixes'] = COMPONENTS, None
+            else:
+                cand = gen_ecase(rng, 100000 + i, root)
+            ok = count_dotdot(cand['defs'], cand['arg']) == 0 and (cand['src'] is None or count_dotdot([], cand['src']) == 0)
+            for lab, a in ((cand['label'], cand['arg']), (cand['src_label'], cand['src'])):
+                if a is not None and ok:
+                    _, pre = im.observe(cand['defs'], conf_by_label[lab][2], a)
+                    if pre[0] == 'AResolved' and ('..' in pre[3].split('/') or not any(
+                            (pre[3] + '/').startswith(b + '/') for b in ('/H', '/S', scratch))):
+                        ok = False
+            if ok:
+                ec = cand
+                break
+        if ec is None:
+            shutil.rmtree(root, ignore_errors=True)
+            continue
+        ec['fresh'] = True
+        if ec.get('home_file'):
+            with open(os.path.join(home, ec['home_file']), 'w') as f:
+                f.write('HOME')
+        with open(os.path.join(home, 'c.case'), 'w') as f:
+            f.write(ec['text'])
+        batch.append((ec, root, home, acthome, snapshot(home, acthome)))
+
+    def run_fresh(item):
+        ec, root, home, acthome, before = item
+        env = dict(os.environ, PYTHONPATH=common.REPO + '/src', PYTHONWARNINGS='ignore', TMPDIR=os.path.join(root, 'sbx'))
+        try:
+            p = subprocess.run([sys.executable, common.REPO + '/src/default-main-program-runner.py', '--keep', 'c.case'], cwd=home,
+                               env=env, stdout=subprocess.PIPE, stderr=subprocess.PIPE, text=True, errors='replace', timeout=120)
+            return p.stdout, p.stderr, None
+        except Exception as ex:  # a time-out is an observation
+            return '', '', ex
+    with ThreadPoolExecutor(max_workers=8) as pool:
+        outs = list(pool.map(run_fresh, batch))
+    for (ec, root, home, acthome, before), (out, err, exc) in zip(batch, outs):
+        finish(ec, root, home, acthome, out, err, exc, before, snapshot(home, acthome), root, os.path.join(root, 'sbx'))
+        shutil.rmtree(root, ignore_errors=True)
 
     def term(ec):
         _, creates, _, conf = conf_by_label[ec['label']]
@@ -1209,7 +1293,8 @@ def run_ecases(ctx, res, im, scratch):
         root = os.path.dirname(ec['home'])
         return {'level': 'program', 'input': {'defs': ec['defs'], 'label': ec['label'], 'arg': ec['arg'], 'src': ec.get('src'),
                                               'src_label': ec.get('src_label')},
-                'test_case_file': ec['text'].replace(root, '<ROOT>'), 'run': 'exactly --keep c.case (in <ROOT>/home; act-home = <ROOT>/acthome)',
+                'test_case_file': ec['text'].replace(root, '<ROOT>'), 'run': 'exactly --keep c.case (in <ROOT>/home; act-home = <ROOT>/acthome)' + (
+                    '; a FRESH process (command line) - the result may depend on nothing having been parsed before in the process' if ec.get('fresh') else ''),
                 'observed': {'verdict': ec['verdict'], 'stderr': ec['stderr'],
                              'created': [p.replace(root, '<ROOT>').replace(ec['sds'], '<SANDBOX>') for p in ec['created']],
                              'tag_of_contents_read': ec['read'], 'home_directories_changed': ec['home_changed'],
